@@ -142,6 +142,25 @@ def load_known():
         return json.load(f)["findings"]
 
 
+def _nofunc(c):
+    return re.sub(r"[A-Za-z_][\w.<>]*: ", "", c)
+
+
+def new_failures(ctx):
+    """failed obligations that no open known finding accounts for"""
+    open_known = [k for k in load_known()
+                  if k["property"] == ctx.prop and k.get("status") == "open"]
+    out = []
+    for o in ctx.obligations:
+        if o.ok:
+            continue
+        if not any(k["rule"] == o.rule and (k["construct"] == o.construct or
+                                            _nofunc(k["construct"]) == _nofunc(o.construct))
+                   for k in open_known):
+            out.append(o)
+    return out
+
+
 def finish(ctx, level, explanation, checker_cmd, t0, seed=0):
     """match failures against the known findings, write the evidence, print the
     verdict lines, return the exit code"""
